@@ -72,6 +72,37 @@ def run(chk):
                 if rel.max() > 0.5:
                     idx = np.argwhere(mask)[int(rel.argmax())]
                     chk.fail(f"yz-coupling:{tag}", f"g_23 != g_33*d(zShift)/dy on {tag}: real grid", dict(where, index=idx.tolist(), g_23=float(g23[tuple(idx)]), g_33_dzShift_dy=float(ratio_ref[tuple(idx)])))
+            # ---- the same at the x-faces (zShift at the corners of the same grid) and the staggered copies against each other: zShift at an
+            # x-face lies between the corners of that face, zShift at a centre between its two y-faces (Bt/(R Bp) has one sign)
+            if "xlow" in A["g_23"] and "corners" in A["zShift"] and "xlow" in A["dy"]:
+                zc, zx = A["zShift"]["corners"], A["zShift"]["xlow"]
+                dzx = (zc[:, 1:] - zc[:, :-1]) / A["dy"]["xlow"]
+                refx = A["g_33"]["xlow"] * dzx
+                g23x = A["g_23"]["xlow"]
+                mk = np.abs(refx) > 1e-8 * np.nanmax(np.abs(refx) + 1e-300)
+                # the x-faces that end AT an X-point are left out: Bt/(R Bp) is singular there and no difference quotient applies
+                ri_ = r["radialIndex"]
+                for (a_, b_), xp_ in (((0, 0), r["xPointsAtStart"][ri_]), ((-1, 0), r["xPointsAtStart"][ri_ + 1]), ((0, -1), r["xPointsAtEnd"][ri_]), ((-1, -1), r["xPointsAtEnd"][ri_ + 1])):
+                    if xp_ is not None:
+                        mk[a_, b_] = False
+                if mk.any():
+                    relx = np.abs(g23x[mk] - refx[mk]) / np.abs(refx[mk])
+                    worst["yz_xlow"] = max(worst.get("yz_xlow", 0.0), float(relx.max()))
+                    if relx.max() > 0.6:
+                        idx = np.argwhere(mk)[int(relx.argmax())]
+                        chk.fail(f"yz-coupling:xlow:{tag}", f"g_23_xlow != g_33_xlow*d(zShift)/dy (zShift at the corners) on {tag}: real grid",
+                                 dict(where, index=idx.tolist(), g_23=float(g23x[tuple(idx)]), g_33_dzShift_dy=float(refx[tuple(idx)])))
+                for nm, lo, mid in (("xlow", zc, zx), ("centre", A["zShift"]["ylow"], A["zShift"]["centre"])):
+                    inc = lo[:, 1:] - lo[:, :-1]
+                    frac = (mid - lo[:, :-1]) / np.where(inc == 0, np.nan, inc)
+                    okf = np.isfinite(frac)
+                    if okf.any() and (np.nanmin(frac) < -1e-9 or np.nanmax(frac) > 1 + 1e-9):
+                        idx = np.argwhere(okf & ((frac < -1e-9) | (frac > 1 + 1e-9)))[0]
+                        chk.fail(f"zShift-staggered-order:{nm}:{tag}", f"zShift at the {nm} location does not lie between its values at the two ends of the cell in y, so "
+                                 f"g_23 = g_33*d(zShift)/dy cannot hold for the half cells", dict(where, index=idx.tolist(), fraction=float(frac[tuple(idx)])))
+                    if okf.any():
+                        worst[f"fracmin_{nm}"] = min(worst.get(f"fracmin_{nm}", 1.0), float(np.nanmin(frac)))
+                        worst[f"fracmax_{nm}"] = max(worst.get(f"fracmax_{nm}", 0.0), float(np.nanmax(frac)))
             # ---- displacements at cell centres (skip the cells touching an X-point)
             Rx, Zx = A["Rxy"]["xlow"], A["Zxy"]["xlow"]
             Ry, Zy = A["Rxy"]["ylow"], A["Zxy"]["ylow"]
